@@ -178,13 +178,44 @@ def gen_step(rng, sh, ops_enabled):
             thisc = [pick() for _ in otherc]
         name = rng.choice(['', '', 'blkA', 'blkB', 'blkC'])
         return ['connect', other, thisc, otherc, right, name, rng.random() < 0.7]
+    if op == 'replace_subcircuit':
+        from props.slicegen import make_slice, sub_from_slice
+        j = {'gates': [[l, t, list(o)] for l, (t, o) in sh.gates.items()], 'inputs': list(sh.inputs),
+             'outputs': [o for o in sh.outputs if o in sh.gates], 'blocks': []}
+        try:
+            sl = make_slice(rng, j)
+        except Exception:
+            sl = None
+        if sl is None:
+            return ['mark_as_output', pick()]
+        variant = rng.choice(['identical', 'renamed', 'renamed', 'reexpressed', 'entangled', 'entangled', 'incomplete'])
+        try:
+            sub, im, om = sub_from_slice(j, sl, variant, rng)
+        except Exception:
+            return ['mark_as_output', pick()]
+        if variant != 'incomplete':
+            ren = dict(map(tuple, im + om))
+            m = lambda x: ren.get(x, x)
+            dropped = set(sl['interior']) - set(sl['outs'])
+            new = {}
+            for l, (t, o) in sh.gates.items():
+                if l in dropped or l in sl['outs']:
+                    continue
+                new[m(l)] = (t, [m(x) for x in o])
+            for g in sub['gates']:
+                if g[1] != 'INPUT':
+                    new[g[0]] = (g[1], list(g[2]))
+            sh.gates = new
+            sh.inputs = [m(x) for x in sh.inputs]
+            sh.outputs = [m(x) for x in sh.outputs]
+        return ['replace_subcircuit', sub, im, om]
     raise ValueError(op)
 
 
 PRIMITIVE_OPS = ['add_gate'] * 5 + ['remove_gate', 'rename_gate', 'rename_gate', 'mark_as_output', 'set_outputs',
                                     'set_inputs', 'add_inputs', 'order_inputs', 'order_outputs', 'replace_inputs',
                                     'make_block', 'delete_block', 'copy']
-ALL_OPS = PRIMITIVE_OPS + ['into_bench', 'connect', 'connect']
+ALL_OPS = PRIMITIVE_OPS + ['into_bench', 'connect', 'connect', 'replace_subcircuit']
 
 
 def gen_history(rng, n_steps, ops=ALL_OPS, start=None):
